@@ -289,13 +289,29 @@ fn check_settled(
   }
   // every error entry that is not a root (or what a root redirects to)
   // carries the referrer through which it was requested
+  // (closure over the graph's redirects and over every redirect the loader
+  // answered in this run: the graph keeps only the first redirect of a
+  // specifier, a later request of the same root chain may have been led
+  // elsewhere)
   let mut root_chain: BTreeSet<String> = BTreeSet::new();
-  for r in &shape.roots {
-    let mut cur = r.clone();
-    while root_chain.insert(cur.clone()) {
-      match shape.redirects.get(&cur) {
-        Some(t) => cur = t.clone(),
-        None => break,
+  {
+    let mut edges: BTreeMap<&str, Vec<&str>> = BTreeMap::new();
+    for (a, b) in &shape.redirects {
+      edges.entry(a.as_str()).or_default().push(b.as_str());
+    }
+    for l in &run.loads {
+      if let Some(f) = &l.final_url {
+        if *f != l.id.url {
+          edges.entry(l.id.url.as_str()).or_default().push(f.as_str());
+        }
+      }
+    }
+    let mut work: Vec<&str> = shape.roots.iter().map(|s| s.as_str()).collect();
+    while let Some(n) = work.pop() {
+      if root_chain.insert(n.to_string()) {
+        if let Some(ts) = edges.get(n) {
+          work.extend(ts.iter().copied());
+        }
       }
     }
   }
